@@ -384,9 +384,14 @@ def monitor_single_continuation(w: World) -> tuple[str, Any] | None:
                 continue
             pushed[p.get("task_id")] += 1
             stage_of[p.get("task_id")] = p.get("stage_id")
+    # every before-stage that completes sends its own ContinueParentStage, and each of them asks for the parent's
+    # first task (the duplicates are dropped by StartTask's own guard): allow one StartTask per before-stage
+    befores: Counter = Counter()
+    for r in w.q("SELECT parent_stage_id FROM stage_executions WHERE parent_stage_id IS NOT NULL AND synthetic_stage_owner = 'STAGE_BEFORE'"):
+        befores[r[0]] += 1
     for tid, n in pushed.items():
         sid = stage_of[tid]
-        if n > max(1, starts[sid]):
+        if n > max(1, starts[sid]) * max(1, befores[sid]):
             ref = next((r for r, i in w.refs.items() if i == sid), sid)
             return ("StartTask_queued_twice_for_one_start/%s" % ref, {"stage": ref, "task_id": tid, "StartTask_pushed": n, "stage_starts": starts[sid]})
     return None
@@ -1277,7 +1282,7 @@ def make_post_replay(q_sym: Any, p_sym: Any) -> Callable[[World, dict[str, Any],
             if sid not in full["stages"]:
                 ref = next((r for r, i in w.refs.items() if i == sid), sid)
                 return ("replay/stage_missing_from_log/%s=%s" % (ref, dst), {"stage": ref, "stored": dst})
-        for trow in w.q("SELECT id, status FROM task_executions"):
+        for trow in w.q("SELECT t.id AS id, t.status AS status FROM task_executions t JOIN stage_executions s ON s.id = t.stage_id WHERE s.execution_id = ?", wid):
             tid, tst = trow["id"], trow["status"]
             if tid in marked or tst in ("NOT_STARTED", "SKIPPED", "CANCELED", "REDIRECT"):
                 continue  # skipped/canceled/redirect tasks are not part of the regular task events
